@@ -9,12 +9,19 @@ import NitroVerif.Model.SchemaDecls
 import NitroVerif.Model.ResolverDecls
 import NitroVerif.Spec.RefTypes
 import NitroVerif.Lemmas.TsSem
+import NitroVerif.Lemmas.TsSemSound
 import NitroVerif.Lemmas.JsDoc
 namespace NitroVerif.Props.C10
 open NitroVerif.ResolverDecls
 open NitroVerif.Gql NitroVerif.Ts NitroVerif.DeclCfg NitroVerif.SchemaDecls NitroVerif.RefTypes
 
 variable {e : Env}
+
+/-- The membership procedure the O streams evaluate (`ts.mem`, `ts.table`) is sound for the relation the theorems
+    are stated in: if it accepts `v` for the type `t` written in namespace `scope`, then `v` is a member. -/
+theorem membership_procedure_sound (scope : Scope) (n : Nat) (v : J) (t : Ty)
+    (h : memFuel e scope n v t = true) : Mem e v (globalise e.decls scope [] t) :=
+  memFuel_sound scope n v t h
 
 /-! ### the wrapper lemma -/
 
@@ -412,5 +419,23 @@ theorem string_literal_sound (s : String) (h : isGraphQLName s = true) :
       rcases List.mem_cons.1 hd with rfl | hd
       · exact key _ (by rcases h.1 with h | h; exact Or.inl h; exact Or.inr (Or.inr h))
       · exact key _ (by rcases h.2 d hd with (h | h) | h; exact Or.inl h; exact Or.inr (Or.inl h); exact Or.inr (Or.inr h))
+
+
+/-! ### OPEN — carried by K/O only
+
+* `C10_alias_exact` in closed form: `SchemaValid S → ∀ t T, Mem (Env.ofFile (schemaFile c S)) v (globalise … [] (qref [t.name, T])) ↔ Ref c S t T v`.
+  Proved above: the body of every alias is exact for every interpretation of its references (`C10_alias_exact_*`),
+  local names avoid the scalar-text identifiers (`C10_rename_sound_partial`) and are injective. Missing link:
+  that `Decls.resolveRef / resolveQ` on `Decls.ofFile (schemaFile c S)` map the reference `Ctx.leaf n` inside
+  namespace `t` to the declaration emitted for `n` in that namespace, and every identifier of a scalar text to no
+  declaration (name resolution through `find?` over the generated statement list), and the induction on values that
+  turns the per-body statements into the recursive `Ref`. The O stream evaluates exactly this closed form on the
+  REAL files (every alias × every value of the abstract domain).
+* completeness of `memG` for sufficient fuel (`Mem e v t → ∃ n, memG e n v t = true`); soundness is proved.
+* `Ref_t` for scalars is the configured text read in the empty environment; that the namespace scope adds nothing
+  to it is the second half of rename soundness (same missing link).
+* the model-plugin transforms of the resolvers file ("minus plugin-excluded") are not modelled: the harness calls
+  the printer without plugins.
+-/
 
 end NitroVerif.Props.C10
